@@ -4,6 +4,7 @@ package main
 
 import (
 	"bytes"
+	"sort"
 	"encoding/binary"
 	"fmt"
 	"io"
@@ -39,6 +40,17 @@ func behOf(qname string) string {
 
 func txtFor(qname string) []string {
 	n := strings.ToLower(qname)
+	if b := behOf(n); len(b) >= 2 && b[0] == 'b' {
+		// "bNNNN": exactly NNNN pad characters, in strings of at most 255 (sized replies for stream bursts)
+		pad := vlib.Atoi(b[1:])
+		out := []string{"q=" + n}
+		for pad > 0 {
+			k := min(pad, 255)
+			out = append(out, strings.Repeat("b", k))
+			pad -= k
+		}
+		return out
+	}
 	return []string{"q=" + n, strings.Repeat("p", 1+int(fnv64([]byte(n))%180))}
 }
 
@@ -70,6 +82,11 @@ func mkQuery(id uint16, name string, edns bool) []byte {
 	m.Id = id
 	if edns {
 		m.SetEdns0(1232, false)
+		if id%3 == 1 {
+			// a client cookie that encodes who sent it; the reply's COOKIE option must start with exactly these 8 bytes
+			o := m.IsEdns0()
+			o.Option = append(o.Option, &dns.EDNS0_COOKIE{Code: dns.EDNS0COOKIE, Cookie: clientCookie(id)})
+		}
 		if id%5 == 0 {
 			// an EDNS option the wire-born parser does not admit: the packet takes the
 			// decoded entry (pooled chain from Pipeline.chainPool, pooled edns writer)
@@ -79,6 +96,20 @@ func mkQuery(id uint16, name string, edns bool) []byte {
 	}
 	b, _ := m.Pack()
 	return b
+}
+
+func clientCookie(id uint16) string { return fmt.Sprintf("c00c1e%04x%04xaa", id, id^0x5a5a) }
+
+// cookieOf returns the hex COOKIE option of a message's OPT ("" = none).
+func cookieOf(m *dns.Msg) string {
+	if o := m.IsEdns0(); o != nil {
+		for _, x := range o.Option {
+			if c, ok := x.(*dns.EDNS0_COOKIE); ok {
+				return c.Cookie
+			}
+		}
+	}
+	return ""
 }
 
 // walkMsg is an independent wire walker: the offset one past the last record
@@ -185,6 +216,12 @@ func whyNotOwn(sent, got []byte) string {
 	if len(r.Ns) != 0 {
 		return "unexpected authority record"
 	}
+	switch qc, rc := cookieOf(q), cookieOf(r); {
+	case qc == "" && rc != "":
+		return "the reply carries a COOKIE option (" + rc[:min(len(rc), 16)] + "…) although this query sent none: bytes of another client's query"
+	case qc != "" && rc != "" && !strings.HasPrefix(rc, qc[:16]):
+		return "the reply's COOKIE option echoes a client cookie this query did not send"
+	}
 	switch behOf(name) {
 	case "nr":
 		return "the handler wrote nothing for this query: nothing may be sent"
@@ -262,15 +299,40 @@ func runUSrv(seed uint64, steps int, dirtyPat int) (transcript []string, verdict
 	verdict = "ok"
 	note := func(ds []dgram) {
 		for _, d := range ds {
-			transcript = append(transcript, fmt.Sprintf("c%d %s", d.client, vlib.Hex(maskTTL(d.b))))
+			if d.client != nClients-1 { // the polluter's own replies are judged, not compared
+				transcript = append(transcript, fmt.Sprintf("c%d %s", d.client, vlib.Hex(maskTTL(d.b))))
+			}
 		}
 		if v := rig.judge(ds, ownSrvReply); v != "ok" && verdict == "ok" {
 			verdict = strings.Replace(v, "sig=udp/", "sig=usrv/", 1)
 		}
 	}
+	// In the dirty run the slabs the next read will take were last used by a
+	// feature-rich request of ANOTHER client (cookie, DO, NSID): whatever a
+	// request leaves in job-owned storage (slab fields, strict-path slots such
+	// as the edns writer) is realistic residue, produced by the real code.
+	polluteSeq := 0
+	pollute := func() {
+		if dirtyPat < 0 || len(rig.queued) > 0 {
+			return
+		}
+		for k := 0; k < 8; k++ {
+			polluteSeq++
+			_, _ = rig.step([]string{"udp", "send", fmt.Sprint(nClients - 1), vlib.Hex(polluterQuery(nClients-1, polluteSeq))})
+		}
+		_, ds := rig.step([]string{"udp", "read", "batch", "16"})
+		note(ds)
+		for rig.u.Pending() > 0 {
+			_, ds := rig.step([]string{"udp", "serve"})
+			note(ds)
+		}
+		_, ds = rig.step([]string{"udp", "flush"})
+		note(ds)
+	}
 	for i := 0; i < steps; i++ {
 		switch k := r.Intn(10); {
 		case k < 5:
+			pollute()
 			c := r.Intn(nClients - 1)
 			seq++
 			_, _ = rig.step([]string{"udp", "send", fmt.Sprint(c), vlib.Hex(srvPacket(r, c, seq, shared))})
@@ -305,10 +367,78 @@ func runUSrv(seed uint64, steps int, dirtyPat int) (transcript []string, verdict
 	return transcript, verdict
 }
 
+func polluterQuery(c, seq int) []byte {
+	m := new(dns.Msg)
+	m.SetQuestion(fmt.Sprintf("c%d-p%d-ok.z.c10.", c, seq), dns.TypeTXT)
+	m.Id = uint16(c)<<10 | uint16(seq&1023)
+	m.SetEdns0(4096, true)
+	o := m.IsEdns0()
+	o.Option = append(o.Option, &dns.EDNS0_COOKIE{Code: dns.EDNS0COOKIE, Cookie: "deadbeefcafef00d"}, &dns.EDNS0_NSID{Code: dns.EDNS0NSID})
+	b, _ := m.Pack()
+	return b
+}
+
+// execCookie: on ONE job (admission cap 1 / one connection) a query with a
+// client cookie from one client, then a query with an OPT and no cookie from
+// another client. The second reply must carry no COOKIE option at all.
+func execCookie(mode string) vlib.Res {
+	l := startLive(false, nil)
+	defer l.Stop()
+	a := polluterQuery(0, 1)
+	bq := new(dns.Msg)
+	bq.SetQuestion("c1-s2-ok.z.c10.", dns.TypeTXT)
+	bq.Id = 1<<10 | 2
+	bq.SetEdns0(1232, false)
+	b, _ := bq.Pack()
+	or := "ok"
+	var replyB []byte
+	if mode == "tcp" {
+		t := server.VerifC10NewTCP(nil, l.Srv, 8)
+		var stream []byte
+		for _, p := range [][]byte{a, b} {
+			stream = binary.BigEndian.AppendUint16(stream, uint16(len(p)))
+			stream = append(stream, p...)
+		}
+		c := runConn(t, stream, "-", 0)
+		or = judgeStream(stream, c.out, ownSrvReply, "usrv/cookie/tcp")
+		if fr, _ := splitFrames(c.out); len(fr) == 2 {
+			replyB = fr[1]
+		}
+	} else {
+		rig, err := newUDPRig(l.Srv, false, 1, -1)
+		if err != nil {
+			return vlib.Res{Impl: "rig-error"}
+		}
+		defer rig.close()
+		for i, p := range [][]byte{a, b} {
+			_, _ = rig.step([]string{"udp", "send", fmt.Sprint(i), vlib.Hex(p)})
+			_, ds := rig.step([]string{"udp", "drain"})
+			if v := rig.judge(ds, ownSrvReply); v != "ok" && or == "ok" {
+				or = strings.Replace(v, "sig=udp/", "sig=usrv/cookie/udp/", 1)
+			}
+			if i == 1 && len(ds) == 1 {
+				replyB = ds[0].b
+			}
+		}
+	}
+	if or == "ok" && replyB != nil {
+		if why := whyNotOwn(b, replyB); why != "" {
+			or = fail("usrv/cookie/"+mode+"/not-own-bytes", "%s", why)
+		}
+	}
+	return vlib.Res{Impl: fmt.Sprintf("replied=%s", vlib.B(replyB != nil)), Oracle: or, Tags: "nt"}
+}
+
 func execUSrv(f []string) vlib.Res {
+	if f[1] == "cookie" {
+		return execCookie(f[2])
+	}
 	seed, steps, pat := vlib.AtoU64(f[2]), vlib.Atoi(f[3]), int(vlib.UnHex(f[4])[0])
 	ta, va := runUSrv(seed, steps, -1)
 	tb, vb := runUSrv(seed, steps, pat)
+	// the polluter shifts when pending jobs are served, never their relative order: compare as multisets
+	sort.Strings(ta)
+	sort.Strings(tb)
 	or := va
 	if or == "ok" && vb != "ok" {
 		or = strings.Replace(vb, "sig=usrv/", "sig=usrv/dirty-slab/", 1)
@@ -350,6 +480,14 @@ func runTSrv(seed uint64, frames int, dirty bool, pat byte) (in, out []byte) {
 	t := server.VerifC10NewTCP(nil, l.Srv, 8)
 	if dirty {
 		t.SeedDirty(pat)
+		// a previous connection of another client, every EDNS feature on, on the same slabs
+		var ps []byte
+		for i := 1; i <= 3; i++ {
+			p := polluterQuery(3, i)
+			ps = binary.BigEndian.AppendUint16(ps, uint16(len(p)))
+			ps = append(ps, p...)
+		}
+		_ = runConn(t, ps, "-", 0)
 	}
 	c := runConn(t, stream, spec, 0)
 	return stream, c.out
@@ -384,7 +522,7 @@ func execTSrv(f []string) vlib.Res {
 
 type stressStats struct {
 	sent, replies, ignoredSent, panicsSent, silentSent, sharedSent, hitsSent, malformed atomic.Int64
-	tcpBursts, tcpRefused                                                                atomic.Int64
+	tcpBursts, tcpRefused, boundary                                                      atomic.Int64
 }
 
 type failBox struct {
@@ -664,6 +802,98 @@ func msgClient(l *srvh.Live, c, n int, seed uint64, nShared int, st *stressStats
 	}
 }
 
+// boundaryClient pipelines cache hits whose reply sizes it has measured, so
+// that the replies staged in the connection's drain buffer end at every offset
+// within a few bytes of the buffer's size (the branch points of
+// tcpStream.stage). Every burst must come back as whole frames, one per query,
+// in order.
+func boundaryClient(addr string, c, drain int, st *stressStats, fb *failBox, done *sync.WaitGroup) {
+	defer done.Done()
+	conn, err := net.DialTimeout("tcp4", addr, time.Second)
+	if err != nil {
+		return
+	}
+	defer conn.Close()
+	seq := 0
+	plain := func(name string) []byte {
+		seq++
+		m := new(dns.Msg)
+		m.SetQuestion(name, dns.TypeTXT)
+		m.Id = uint16(c)<<10 | uint16(seq)
+		m.SetEdns0(1232, false)
+		b, _ := m.Pack()
+		return b
+	}
+	// ask pipelines the names in one write and returns the reply lengths (nil = connection unusable)
+	ask := func(names ...string) []int {
+		var wire []byte
+		var raws [][]byte
+		for _, n := range names {
+			raw := plain(n)
+			raws = append(raws, raw)
+			wire = binary.BigEndian.AppendUint16(wire, uint16(len(raw)))
+			wire = append(wire, raw...)
+		}
+		st.sent.Add(int64(len(names)))
+		st.tcpBursts.Add(1)
+		if _, err := conn.Write(wire); err != nil {
+			return nil
+		}
+		_ = conn.SetReadDeadline(time.Now().Add(2 * time.Second))
+		var lens []int
+		for i, raw := range raws {
+			var pre [2]byte
+			if _, err := io.ReadFull(conn, pre[:]); err != nil {
+				return nil
+			}
+			body := make([]byte, binary.BigEndian.Uint16(pre[:]))
+			if _, err := io.ReadFull(conn, body); err != nil {
+				fb.set("stress/tcp/partial-frame", "boundary client %d: the stream ended inside reply %d of a %d-query burst (frame announced %d bytes)", c, i+1, len(raws), len(body))
+				return nil
+			}
+			if why := whyNotOwn(raw, body); why != "" {
+				fb.set("stress/tcp/burst-misframed", "boundary client %d: reply %d of a %d-query burst (%d bytes) is not the reply to query %d: %s", c, i+1, len(raws), len(body), i+1, why)
+				return nil
+			}
+			st.replies.Add(1)
+			lens = append(lens, len(body))
+		}
+		return lens
+	}
+	big1 := fmt.Sprintf("c%02d-big1-b3900.z.c10.", c)
+	big2 := fmt.Sprintf("c%02d-big2-b3880.z.c10.", c)
+	fill := func(i, pad int) string { return fmt.Sprintf("c%02d-f%02d-b%04d.z.c10.", c, i, pad) }
+	tail := fmt.Sprintf("c%02d-tail-b0007.z.c10.", c)
+	// warm (misses), then measure the hits one by one
+	for _, n := range []string{big1, big2, fill(99, 1), tail} {
+		if ask(n) == nil {
+			return
+		}
+	}
+	var l [3]int
+	for i, n := range []string{big1, big2, fill(99, 1)} {
+		r := ask(n)
+		if r == nil {
+			return
+		}
+		l[i] = r[0]
+	}
+	for i, delta := 0, -5; delta <= 5; i, delta = i+1, delta+1 {
+		// staged total after the third reply: (2+l0) + (2+l1) + 2 + (l2 - 1 + pad)  ==  drain + delta
+		pad := drain + delta - (2 + l[0]) - (2 + l[1]) - 2 - (l[2] - 1)
+		if pad < 1 || pad > 250 {
+			continue
+		}
+		if ask(fill(i, pad)) == nil { // warm the filler
+			return
+		}
+		if ask(big1, big2, fill(i, pad), tail) == nil {
+			return
+		}
+		st.boundary.Add(1)
+	}
+}
+
 func nameOfRaw(raw []byte) string {
 	m := new(dns.Msg)
 	if err := m.Unpack(raw); err != nil || len(m.Question) != 1 {
@@ -705,6 +935,8 @@ func execStress(f []string) vlib.Res {
 		senders.Add(1)
 		go msgClient(l, nu+nt+c, per, seed, nShared, st, fb, &senders)
 	}
+	senders.Add(1)
+	go boundaryClient(l.Addr, nu+nt+4, server.VerifC10Sizes()["tcp_drain"], st, fb, &senders)
 	senders.Wait()
 	deadline := time.Now().Add(4 * time.Second)
 	for !l.Srv.Quiesced() && time.Now().Before(deadline) {
@@ -716,9 +948,9 @@ func execStress(f []string) vlib.Res {
 	if or == "" {
 		or = "ok"
 	}
-	impl := fmt.Sprintf("done sent=%d replies=%d shared=%d hits=%d silent=%d panics=%d ignored=%d malformed=%d tcpbursts=%d",
+	impl := fmt.Sprintf("done sent=%d replies=%d shared=%d hits=%d silent=%d panics=%d ignored=%d malformed=%d tcpbursts=%d boundary=%d",
 		st.sent.Load(), st.replies.Load(), st.sharedSent.Load(), st.hitsSent.Load(), st.silentSent.Load(), st.panicsSent.Load(),
-		st.ignoredSent.Load(), st.malformed.Load(), st.tcpBursts.Load())
+		st.ignoredSent.Load(), st.malformed.Load(), st.tcpBursts.Load(), st.boundary.Load())
 	tags := ""
 	if st.replies.Load() > 0 && st.sharedSent.Load() > 1 && st.panicsSent.Load()+st.ignoredSent.Load() > 0 {
 		tags = "nt"
